@@ -195,6 +195,32 @@ Inductive ret := RBool (b : bool) | RObj (x : option nat) | RUnit
                | RIll.   (* not a call the type system / a caller can make: receiver or argument not held or of the wrong class *)
 Inductive outcome := Ok (s : state) (r : ret) | Crash.
 
+(** the public queries of the object model that take an entity, an index or a name (they change nothing; a returned
+    pointer is one more reference held by the caller) *)
+Inductive query :=
+  | QContainsComponentName (k : nat) (n : string) (deep : bool)
+  | QContainsComponentPtr (k : nat) (c : option nat) (deep : bool)
+  | QComponentIdx (k i : nat)
+  | QComponentName (k : nat) (n : string) (deep : bool)
+  | QHasVariableName (k : nat) (n : string)
+  | QHasVariablePtr (k : nat) (v : option nat)
+  | QVariableIdx (k i : nat)
+  | QVariableName (k : nat) (n : string)
+  | QHasReset (k : nat) (r : option nat)
+  | QResetIdx (k i : nat)
+  | QHasUnitsName (k : nat) (n : string)
+  | QHasUnitsPtr (k : nat) (u : option nat)
+  | QUnitsIdx (k i : nat)
+  | QUnitsName (k : nat) (n : string)
+  | QHasEquivalentVariable (v : nat) (w : option nat) (indirect : bool)
+  | QEquivalentVariable (v i : nat)
+  | QParent (x : nat)
+  | QHasParent (x : nat)
+  | QHasAncestor (x : nat) (a : option nat)
+  | QGetUnits (v : nat)
+  | QGetVariable (r : nat)
+  | QGetTestVariable (r : nat).
+
 Inductive op :=
   | AddComponent (k : nat) (c : option nat)
   | RemoveComponentIdx (k i : nat)
@@ -235,7 +261,8 @@ Inductive op :=
   | SetUnits (v : nat) (u : option nat)
   | SetResetVariable (r : nat) (v : option nat)
   | SetResetTestVariable (r : nat) (v : option nat)
-  | Release (h : nat).
+  | Release (h : nat)
+  | Query (q : query).
 
 (* ------------------------------------------------------------------------------------------------ step *)
 
@@ -467,6 +494,83 @@ Section Step.
     | LCrash => Crash
     end.
 
+  (** variable.cpp: haveEquivalentVariables — everything reachable from [R] over equivalences ([fuel] rounds) *)
+  Fixpoint eq_closure (fuel : nat) (s : state) (R : list nat) : list nat :=
+    match fuel with
+    | 0 => R
+    | S f => eq_closure f s (add_all (flat_map (eqs_of s) R) R)
+    end.
+
+  Definition is_some {A} (o : option A) : bool := match o with Some _ => true | None => false end.
+  Definition found {A} (r : local A) : option bool :=
+    match r with LDone _ => Some true | LRefused => Some false | LCrash => None end.
+  Definition found_obj (r : local nat) : option ret :=
+    match r with LDone x => Some (RObj (Some x)) | LRefused => Some (RObj None) | LCrash => None end.
+  Definition obool (b : option bool) : option ret := option_map RBool b.
+  Definition child_at (s : state) (K : ck) (k : nat) (i : option nat) : option nat :=
+    match i with Some j => nth_error (children s K k) j | None => None end.
+
+  (** None: the call does not return (stack exhaustion) *)
+  Definition query_eval (s : state) (q : query) : option ret :=
+    match q with
+    | QContainsComponentName k n dp =>
+        obool (found (with_deep s dp (fun k' => of_opt (find_named s CComps k' n)) k))
+    | QContainsComponentPtr k c dp =>
+        obool (found (with_deep s dp (fun k' => match c with Some x => of_opt (find_child s CComps k' x) | None => LRefused end) k))
+    | QComponentIdx k i => Some (RObj (nth_error (children s CComps k) i))
+    | QComponentName k n dp =>
+        found_obj (with_deep s dp (fun k' => of_opt (child_at s CComps k' (find_named s CComps k' n))) k)
+    | QHasVariableName k n => Some (RBool (is_some (find_named s CVars k n)))
+    | QHasVariablePtr k v => Some (RBool (match v with Some x => is_some (find_child s CVars k x) | None => false end))
+    | QVariableIdx k i => Some (RObj (nth_error (children s CVars k) i))
+    | QVariableName k n => Some (RObj (child_at s CVars k (find_named s CVars k n)))
+    | QHasReset k r => Some (RBool (match r with Some x => is_some (find_child s CResets k x) | None => false end))
+    | QResetIdx k i => Some (RObj (nth_error (children s CResets k) i))
+    | QHasUnitsName k n => Some (RBool (is_some (find_named s CUnits k n)))
+    | QHasUnitsPtr k u => Some (RBool (match u with Some x => is_some (find_child s CUnits k x) | None => false end))
+    | QUnitsIdx k i => Some (RObj (nth_error (children s CUnits k) i))
+    | QUnitsName k n => Some (RObj (child_at s CUnits k (find_named s CUnits k n)))
+    | QHasEquivalentVariable v w indirect =>
+        (* variable.cpp: VariableImpl::hasEquivalentVariable.  An expired entry never matches: a null argument is
+           equivalent to nothing; indirect: the argument is another variable from which v is reachable *)
+        Some (RBool (match w with
+                     | None => false
+                     | Some x => if indirect then negb (Nat.eqb x v) && memb v (eq_closure (List.length (objs s)) s [x])
+                                 else memb x (eqs_of s v)
+                     end))
+    | QEquivalentVariable v i => Some (RObj (nth_error (eqs_of s v) i))
+    | QParent x => Some (RObj (parent_of s x))
+    | QHasParent x => Some (RBool (is_some (parent_of s x)))
+    | QHasAncestor x a =>
+        match a with
+        | None => if fixed then Some (RBool false)
+                  else (* before the fix: the missing parent of the top-most ancestor equals the null argument *)
+                       match has_ancestor s (fuel_of s) x (List.length (objs s)) with None => None | Some _ => Some (RBool true) end
+        | Some y => obool (has_ancestor s (fuel_of s) x y)
+        end
+    | QGetUnits v => Some (RObj (o_vunits (getd s v)))
+    | QGetVariable r => Some (RObj (o_rvar (getd s r)))
+    | QGetTestVariable r => Some (RObj (o_rtest (getd s r)))
+    end.
+
+  (** what a caller can write down: receiver and arguments held, of the parameter's class *)
+  Definition query_ok (s : state) (q : query) : bool :=
+    match q with
+    | QContainsComponentName k _ _ | QComponentIdx k _ | QComponentName k _ _ => recv s k CComps
+    | QContainsComponentPtr k c _ => recv s k CComps && oarg_ok s c KComp
+    | QHasVariableName k _ | QVariableIdx k _ | QVariableName k _ => recv s k CVars
+    | QHasVariablePtr k v => recv s k CVars && oarg_ok s v KVar
+    | QHasReset k r => recv s k CResets && oarg_ok s r KReset
+    | QResetIdx k _ => recv s k CResets
+    | QHasUnitsName k _ | QUnitsIdx k _ | QUnitsName k _ => recv s k CUnits
+    | QHasUnitsPtr k u => recv s k CUnits && oarg_ok s u KUnits
+    | QHasEquivalentVariable v w _ => arg_ok s v KVar && oarg_ok s w KVar
+    | QEquivalentVariable v _ | QGetUnits v => arg_ok s v KVar
+    | QParent x | QHasParent x => held s x
+    | QHasAncestor x a => held s x && match a with Some y => held s y | None => true end
+    | QGetVariable r | QGetTestVariable r => arg_ok s r KReset
+    end.
+
   Definition ill (s : state) : outcome := Ok s RIll.
 
   Definition step (s : state) (o : op) : outcome :=
@@ -594,6 +698,14 @@ Section Step.
         if arg_ok s r KReset && oarg_ok s v KVar then Ok (gc (upd s r (set_rtest v))) RUnit else ill s
     | Release h =>
         if held s h then Ok (gc (mkState (objs s) (remove_all h (handles s)))) RUnit else ill s
+    | Query q =>
+        if query_ok s q
+        then match query_eval s q with
+             | None => Crash
+             | Some (RObj (Some x)) => Ok (gc (add_handle s x)) (RObj (Some x))     (* the caller now holds x *)
+             | Some r => Ok s r
+             end
+        else ill s
     end.
 
   (** a whole history; None = some call crashed *)
